@@ -50,6 +50,30 @@ theorem C01_signed_boundary (n : Nat) (hn : 0 < n) :
       omega
   exact ofTwos_toTwos n hn _ h
 
+/-! ### recorded finding (open): the code as it stands decodes the signed minimum wrongly
+
+The model above is the property-satisfying codec (`>=` in `_decode_builtin_signed`).  The
+shipped code compares with `>`; that version is transcribed here and shown to violate the
+round trip on the witness replayed by the harness.  The repair cannot be committed because
+the repository's own test `test_roundtrip_decoding_8_byte_types` demands the opposite on the
+same bit pattern (see known_findings.json). -/
+
+/-- `_decode_builtin_signed` as shipped: `if word > max / 2` -/
+def pySignedAsIs (length : Nat) (word : Nat) : Int :=
+  if 2 * word > 2 ^ length then (word : Int) - 2 ^ length else word
+
+theorem C01_signed_min_counterexample : pySignedAsIs 8 (toTwos 8 (-128)) = 128 := by decide
+
+/-- … and it is the only value on which the shipped decoder differs from the model -/
+theorem C01_asis_differs_only_at_min (n : Nat) (w : Nat) (h : 2 * w ≠ 2 ^ n) :
+    pySignedAsIs n w = pySigned n w := by
+  unfold pySignedAsIs pySigned
+  by_cases h1 : 2 * w > 2 ^ n
+  · have : 2 * w ≥ 2 ^ n := by omega
+    simp [h1, this]
+  · have : ¬ (2 * w ≥ 2 ^ n) := by omega
+    simp [h1, this]
+
 /-! non-vacuity: a struct `u3, f32, str, [i5], Optional[[u7,2]]`, ids out of declaration
 order, with the minimum signed value — the hypotheses are satisfiable -/
 def C01_S : Schema := { structs := [{ name := "A", fields := [
